@@ -24,22 +24,24 @@ Section WinHalf.
   Lemma half_sendN s x tx ty a b bytes :
     end_of s x = ELive tx -> end_of s (other x) = ELive ty ->
     net_of s x = [] -> net_of s (other x) = [] -> panicked s = false ->
-    writer tx a b bytes -> quiet ty b a -> 0 < zlen bytes <= 65535 ->
+    writer tx a b bytes -> quiet ty b a -> 0 < zlen bytes ->
+    let m := Z.min (zlen bytes) 65535 in
     let s' := fair_half c s x in
     exists tx' ty' segs, end_of s' x = ELive tx' /\ end_of s' (other x) = ELive ty' /\
       net_of s' x = [] /\ net_of s' (other x) = [] /\ panicked s' = false /\
       (forall y, sub_of s' y = sub_of s y) /\ del_of s' x = del_of s x /\
-      del_of s' (other x) = del_of s (other x) ++ [bytes] /\
-      sending tx' a (wadd a (zlen bytes)) b segs /\ ackingN ty' b (wadd a (zlen bytes)) segs /\
+      del_of s' (other x) = del_of s (other x) ++ [firstn (Z.to_nat m) bytes] /\
+      sending tx' a (wadd a m) b segs (skipn (Z.to_nat m) bytes) /\ ackingN ty' b (wadd a m) segs /\
       mtu tx' = mtu tx /\ mtu ty' = mtu ty.
   Proof.
     intros Ex Ey Nx Ny Pn
       (W1 & W2 & W3 & W4 & W5 & W6 & W7 & W8 & W9 & W10 & W11 & W12 & W13 & W14 & W15 & W16 & W17)
-      (Q1 & Q2 & Q3 & Q4 & Q5 & Q6 & Q7 & Q8 & Q9 & Q10 & Q11 & Q12 & Q13 & Q14 & Q15 & Q16 & Q17) Hn s'.
+      (Q1 & Q2 & Q3 & Q4 & Q5 & Q6 & Q7 & Q8 & Q9 & Q10 & Q11 & Q12 & Q13 & Q14 & Q15 & Q16 & Q17) Hn m s'.
     set (n := zlen bytes) in *.
+    assert (Hm : 0 < m <= 65535 /\ m <= n) by (subst m; lia).
     destruct (segments_flight tx bytes W1 W9 W8 W7 W10 W5 W6 ltac:(congruence) ltac:(rewrite W3; exact W15) W17 Hn)
       as (segs & E1 & F & B & Hne).
-    fold n in E1. set (tx1 := set_rto _ RTO) in E1.
+    cbv zeta in E1, B. fold n in E1, B. fold m in E1, B. set (tx1 := set_rto _ RTO) in E1.
     pose proof (advance_101 tx1 eq_refl W14) as E2.
     change (retx tx1) with (map (fun s => mkTx s false) segs) in E2. rewrite reflag_map in E2.
     set (tx2 := set_retx _ _) in E2.
@@ -47,7 +49,11 @@ Section WinHalf.
                  Ok (set_rto (set_retx (set_oneshot tx2 []) (map (fun s => mkTx s false) segs)) RTO, segs)).
     { apply segments_retransmit; try reflexivity; try assumption.
       - change (st tx2) with (st tx). now rewrite W1.
-      - change (mtu tx2) with (mtu tx). lia. }
+      - change (mtu tx2) with (mtu tx). lia.
+      - change (snd_wnd tx2) with (snd_wnd tx). change (snd_una tx2) with (snd_una tx).
+        change (snd_nxt tx2) with (wadd (snd_nxt tx) m).
+        change (out_text tx2) with (skipn (Z.to_nat m) bytes).
+        rewrite W5, W2, W3, (wsub_of_wadd a m W15 ltac:(lia)), zlen_skipn. fold n. lia. }
     set (tx3 := set_rto _ RTO) in E3.
     rewrite W3, W4 in F.
     unfold s', fair_half, fair_half_t.
@@ -62,7 +68,8 @@ Section WinHalf.
     replace (Datatypes.S (length segs + length segs)) with (length segs + (length segs + 1))%nat by lia.
     (* the flight arrives in order *)
     assert (Ey2 : end_of s2 (other x) = ELive ty) by (subst s2 s1; now sysr).
-    assert (Hfl : flight_len segs = n) by (unfold flight_len; now rewrite B).
+    assert (Hfl : flight_len segs = m).
+    { unfold flight_len. rewrite B, zlen_firstn. fold n. lia. }
     rewrite (deliver_inorder c x (lport tx) (rport tx) b segs s2 ty _ segs Ey2 Nx2 Q1 Q11 Q6
                ltac:(rewrite Q4; exact Q16) ltac:(rewrite Q4; exact F) ltac:(rewrite Q2; apply mod_leq_refl)
                ltac:(rewrite Q12, Hfl; cbn; lia)).
@@ -75,10 +82,11 @@ Section WinHalf.
     assert (Ey3 : end_of s3 (other x) = ELive tyR) by (subst s3; now sysr).
     assert (Nx3 : net_of s3 x = segs ++ []) by (subst s3; rewrite app_nil_r; now sysr).
     rewrite Hfl, Q4 in R1. rewrite Q12 in I1. cbn [app] in I1. rewrite B in I1.
+    assert (Hchunk : zlen (firstn (Z.to_nat m) bytes) = m) by (rewrite zlen_firstn; fold n; lia).
     rewrite (deliver_dups c x (lport tx) (rport tx) b segs s3 tyR a 1 [] Ey3 Nx3
                ltac:(congruence) (S1 Hne) ltac:(congruence) ltac:(rewrite R1; apply wadd_u32)
                F W15 ltac:(rewrite Hfl; congruence) ltac:(lia) ltac:(rewrite Cun, Q2; apply mod_leq_refl)
-               ltac:(rewrite I1; fold n; lia)).
+               ltac:(rewrite I1, Hchunk; lia)).
     destruct (dup_flight_facts segs tyR ltac:(congruence)) as (C2 & R2 & I2 & S2 & acks2 & O2 & FA2).
     cbv zeta in *. set (tyD := dup_flight tyR segs) in *.
     destruct C2 as (_ & _ & Dm & Dst & Dun & Dnx & Dsw & Drw & Dot & Drx & Dfp & Drto & Dtw).
@@ -92,16 +100,16 @@ Section WinHalf.
     rewrite (recv_eval_empty s4 x tx3 Ex4 Hitx).
     set (s5 := set_end s4 x _).
     assert (Ey5 : end_of s5 (other x) = ELive tyD) by (subst s5 s4; now sysr).
-    assert (Hit2 : in_text tyD = bytes) by congruence.
+    assert (Hit2 : in_text tyD = firstn (Z.to_nat m) bytes) by congruence.
     assert (Hne2 : in_text tyD <> []).
-    { rewrite Hit2. intros ->. cbn in Hn. lia. }
+    { rewrite Hit2. intros E0. rewrite E0 in Hchunk. cbn in Hchunk. lia. }
     rewrite (recv_eval_data s5 (other x) tyD Ey5 Hne2). rewrite Hit2.
     exists (set_in_text tx3 []), (set_in_text tyD []), segs.
     splits.
     all: try (subst s5 s4 s3 s2 s1; now sysr).
     all: try reflexivity.
     - intros y. subst s5 s4 s3 s2 s1. now sysr.
-    - unfold sending. subst tx3 tx2 tx1. tcb_simpl. fold n.
+    - unfold sending. subst tx3 tx2 tx1. tcb_simpl.
       splits; try assumption; try reflexivity; try congruence; try lia.
       + exists (lport tx), (rport tx), b. exact F.
     - unfold ackingN. tcb_simpl. rewrite O2, O1, Q9. cbn [app].
@@ -112,15 +120,15 @@ Section WinHalf.
     - cbn [set_in_text mtu]. congruence.
   Qed.
 
-  Lemma half_ackN s y ty tz a b R segs :
+  Lemma half_ackN s y ty tz a b R segs ot :
     end_of s y = ELive ty -> end_of s (other y) = ELive tz ->
     net_of s y = [] -> net_of s (other y) = [] -> panicked s = false ->
-    ackingN ty b R segs -> sending tz a R b segs ->
+    ackingN ty b R segs -> sending tz a R b segs ot ->
     let s' := fair_half c s y in
     exists ty' tz', end_of s' y = ELive ty' /\ end_of s' (other y) = ELive tz' /\
       net_of s' y = [] /\ net_of s' (other y) = [] /\ panicked s' = false /\
       (forall x, sub_of s' x = sub_of s x) /\ (forall x, del_of s' x = del_of s x) /\
-      quiet ty' b R /\ quiet tz' R b /\ mtu ty' = mtu ty /\ mtu tz' = mtu tz.
+      quiet ty' b R /\ writer tz' R b ot /\ mtu ty' = mtu ty /\ mtu tz' = mtu tz.
   Proof.
     intros Ey Ez Ny Nz Pn
       (A1 & A2 & A3 & A4 & A5 & A6 & A7 & A8 & (acks1 & acks2 & A9 & FA1 & FA2) & A10 & A11 & A12 & A13 & A14 & A15 & A16 & A17)
@@ -153,13 +161,13 @@ Section WinHalf.
     rewrite Ny2, app_length, !map_length. cbn iota.
     replace (Datatypes.S (length acks1 + length acks2)) with (length acks1 + (length acks2 + 1))%nat by lia.
     assert (Ez2 : end_of s2 (other y) = ELive tz) by (subst s2 s1; now sysr).
-    destruct (deliver_acks c y b R segs acks1 FA1 s2 tz a (length acks2 + 1)%nat (map mk acks2) HS Ez2 Ny2)
+    destruct (deliver_acks c y b R ot segs acks1 FA1 s2 tz a (length acks2 + 1)%nat (map mk acks2) HS Ez2 Ny2)
       as (tz1 & D1 & HS1 & M1).
     rewrite D1.
     set (s3 := set_end (set_net s2 y (map mk acks2)) (other y) (ELive tz1)).
     assert (Ez3 : end_of s3 (other y) = ELive tz1) by (subst s3; now sysr).
     assert (Ny3 : net_of s3 y = map mk acks2 ++ []) by (subst s3; rewrite app_nil_r; now sysr).
-    destruct (deliver_dupacks c y b R acks2 s3 tz1 1 [] FA2 HS1 Ez3 Ny3) as (tz2 & D2 & HS2 & M2).
+    destruct (deliver_dupacks c y b R ot acks2 s3 tz1 1 [] FA2 HS1 Ez3 Ny3) as (tz2 & D2 & HS2 & M2).
     rewrite D2.
     set (s4 := set_end (set_net s3 y []) (other y) (ELive tz2)).
     assert (Ny4 : net_of s4 y = []) by (subst s4; now sysr).
@@ -169,7 +177,7 @@ Section WinHalf.
     rewrite (recv_eval_empty s4 y ty3 Ey4 A12).
     set (s5 := set_end s4 y _).
     assert (Ez5 : end_of s5 (other y) = ELive tz2) by (subst s5 s4; now sysr).
-    pose proof (sending_quiet tz2 R b HS2) as Qz.
+    pose proof (sending_writer tz2 R b ot HS2) as Qz.
     rewrite (recv_eval_empty s5 (other y) tz2 Ez5 ltac:(apply Qz)).
     exists (set_in_text ty3 []), (set_in_text tz2 []).
     splits.
@@ -178,7 +186,7 @@ Section WinHalf.
     all: try (intros x; subst s5 s4 s3 s2 s1; now sysr).
     all: try (unfold quiet; subst ty3 ty2 ty1; tcb_simpl; splits; try assumption; try reflexivity; lia).
     all: try (destruct Qz as (Z1 & Z2 & Z3 & Z4 & Z5 & Z6 & Z7 & Z8 & Z9 & Z10 & Z11 & Z12 & Z13 & Z14 & Z15 & Z16 & Z17);
-              unfold quiet; tcb_simpl; splits; auto; lia).
+              unfold writer; tcb_simpl; splits; auto; lia).
     all: try (cbn [set_in_text mtu]; congruence).
   Qed.
 End WinHalf.
